@@ -103,7 +103,9 @@ def run(ctx):
         if _ % 2 == 1:
             hb = bytes([0, rng.randrange(16)]) + hb[2:]          # leading zero nibbles
         hashes = [hb.hex(), hb.hex().upper(), " ".join(hb.hex()[i:i + 2] for i in range(0, 64, 2)),
-                  hb.hex()[:-2], hb.hex() + "00", "zz" * 32, 5, None, hb.hex()[:-1] + "g"]
+                  hb.hex()[:-2], hb.hex() + "00", "zz" * 32, 5, None, hb.hex()[:-1] + "g",
+                  # 64 characters that are NOT 32 bytes: fewer bytes made up to length with blanks
+                  hb.hex()[:62] + "  ", hb.hex()[:30] + " \t" + hb.hex()[30:60] + "\n ", " " + hb.hex()[:62] + " "]
         key = certs.K1Key(rng)
         good_sigs = [certs.K1Key(rng).sign(b"x").hex() for _ in range(10)]
         for it in ITERATIONS:
